@@ -19,7 +19,7 @@ Insertion ties (lean/Driver/ExtIns.lean, op `insGuard`; Props/C12.lean `insertPo
 `join_point` the real edit is performed (`tr.insert(p, node)`, `tr.replace(p, p, slice)`, `tr.join(p)`) and the theorem's
 guards are evaluated by the model: guards true ⇒ the real edit succeeded, `check()` passed and (insert, drop) the one
 recorded step is `ReplaceStep(p, p, slice)` (relational); the guard parts with a Python counterpart are compared exactly
-(`boundary` = `resolve(p).text_offset == 0`, `marks` = the parent of `p` allows the node's marks, `trivial` = the real
+(`boundary` = `resolve(p).text_offset == 0`, `inside` = `insideTextGuard` re-run on the real `can_replace`, `marks` = the parent of `p` allows the node's marks, `trivial` = the real
 `fits_trivially`, `pass1` = the first pass of `drop_point` re-run on the real `can_replace`, `canJoin` = the real
 `can_join` at the join point, which must be `True`).  A marked copy of the inserted node and an aimed schema
 (`insert-inside-text`, content `image? text* image`) make the guards bite.
@@ -175,7 +175,10 @@ def run(ctx):
                 elif g and not (exp["good"] and exp.get("exact", True)):
                     ctx.mismatch(op, replay, "guards hold ⇒ the real edit succeeds, check() passes, the step is ReplaceStep(p, p, slice)",
                                  f"guards hold; real edit: {exp}")
-                for key in ("boundary", "marks", "trivial", "pass1", "canJoin"):
+                if "boundary" in exp:
+                    ctx.count(f"{op}: guards={g}, " + ("at a child boundary" if exp["boundary"] else "inside a text child")
+                              + f", edit {'succeeded' if exp['good'] else 'failed'}")
+                for key in ("boundary", "inside", "marks", "trivial", "pass1", "canJoin"):
                     if key in exp and exp[key] is not None and out.get(key) != exp[key]:
                         ctx.mismatch(op + " " + key, replay, exp[key], out.get(key))
                 if op == "insguard join" and exp.get("canJoin") != {"ok": True}:
@@ -205,6 +208,25 @@ def run(ctx):
     import random as _random
     rng2 = _random.Random(ctx.seed * 7919 + 12)     # own stream: the case stream of the older checks stays as it was
 
+    _al = {}
+
+    def inside_guard(d, p, nodes):
+        """Python counterpart of `insideTextGuard` (lean/PM/InsertGuard.lean): a child boundary, or inside a text child
+        (at a pair-aligned offset) whose parent accepts `text nodes text` there"""
+        rp = d.resolve(p)
+        if rp.text_offset == 0:
+            return True
+        child = rp.parent.child(rp.index())
+        if not child.is_text:
+            return False
+        if id(d) not in _al:
+            _al.clear()
+            _al[id(d)] = (d, set(gen.aligned_positions(d)))
+        if p not in _al[id(d)][1]:
+            return False
+        st_, v = outcome(lambda: rp.parent.can_replace(rp.index() + 1, rp.index() + 1, Fragment(list(nodes) + [child])))
+        return st_ == "ok" and bool(v)
+
     def ins_tie(info, d, ip, node, replay):
         """`insertPoint_insert_applies` at an answer `ip` of the real insert_point: tr.insert(ip, node) vs the guards"""
         sl = Slice(Fragment.from_(node), 0, 0)
@@ -218,7 +240,7 @@ def run(ctx):
         stf, ft = outcome(lambda: fits_trivially(rp, rp, sl))
         reqs.append({"op": "insGuard", "k": "insert", "s": info.lean_id, "doc": info.node(d), "p": ip, "node": info.node(node)})
         metas.append(("insguard insert", dict(replay, point=ip, node=node.to_json(), real=str(val)[:120] if sta != "ok" else "ok"),
-                      {"good": good, "exact": exact, "boundary": rp.text_offset == 0,
+                      {"good": good, "exact": exact, "boundary": rp.text_offset == 0, "inside": inside_guard(d, ip, [node]),
                        "marks": bool(rp.parent.type.allows_marks(node.marks)), "trivial": bool(ft) if stf == "ok" else None}))
 
     def drop_pass1(d, pos, sl):
@@ -246,6 +268,7 @@ def run(ctx):
         reqs.append({"op": "insGuard", "k": "drop", "s": info.lean_id, "doc": info.node(d), "p": dp, "pos": pos, "slice": info.slice(sl)})
         metas.append(("insguard drop", dict(replay, point=dp),
                       {"good": good, "exact": exact, "boundary": rp.text_offset == 0,
+                       "inside": inside_guard(d, dp, [sl.content.child(i) for i in range(sl.content.child_count)]),
                        "trivial": bool(ft) if stf == "ok" else None, "pass1": {"ok": p1} if st1 == "ok" else {"err": "raises"}}))
         ctx.count("drop_point answers: " + ("closed slice" if not sl.open_start and not sl.open_end else "open slice")
                   + (", first pass" if st1 == "ok" and p1 == dp else ", second pass"))
